@@ -11,6 +11,7 @@ def run(ctx):
     two = [s for s in wcat.twoproc_scenarios() if s["family"] == "2proc:tok"]
     plan = [
         {"scens": wcat.token_scenarios(("file", "process")), "policies": ("FIFO", "LIFO") if q else ("FIFO", "LIFO", "JOBS"), "bound": 1 if q else 2, "demote": True, "cap": 40000},
+        {"scens": wcat.token_and_dependency_scenarios(), "policies": ("FIFO", "JOBS"), "bound": 1, "demote": True},
         {"scens": wcat.token_again_scenarios(), "policies": ("FIFO", "LIFO", "JOBS"), "bound": 1, "demote": True},
         {"scens": two, "policies": wcat.POL_WIDE, "bound": 1, "cap": 60000},
         # one deviation, including the "long preemption" (the default actor is descheduled until nothing else can run), under
